@@ -201,3 +201,234 @@ def plan_case(rng, valid_bias=0.7, with_start=None):
         now = rng.choice([0, 123 * S])
     topenc = ",".join("%s=%s" % (k, hx(v) if k == "scenario" else str(v)) for k, v in top.items())
     return "plan %d %s %s %s" % (now, topenc or "-", enc_stage(dflt), " ".join(enc_stage(s) for s in stages))
+
+
+# ----------------------------------------------------------------------------- command lines (op `cli`)
+
+CLI_UNITS = ["s", "100ms", "50ms", "250ms", "1s", "0.1s", "500ms", "m", "150ms"]
+CLI_DURS = ["150ms", "200ms", "300ms", "0.25s", "120ms"]
+
+
+def cli_rate(rng, valid=True):
+    if not valid:
+        return rate_string(rng, False)
+    n = rng.choice(["0", "1", "3", "5", "10", "007", "24"])
+    k = rng.random()
+    if k < 0.15:
+        return n
+    return n + "/" + rng.choice(CLI_UNITS)
+
+
+def cli_case(rng, focus=None):
+    """One command line for F1.ExecuteWithArgs. focus: None | 'verdict' | 'limits' | 'file' | 'reject'."""
+    kv = {}
+    mode = rng.choice(["constant"] * 8 + ["staged"] * 3 + ["ramp"] * 3 + ["users"] * 3 + ["gaussian"] + ["file"] * 2)
+    if focus == "verdict":
+        mode = rng.choice(["constant", "users", "file"])
+    if focus == "limits":
+        mode = rng.choice(["users", "constant", "file"])
+    if focus == "file":
+        mode = "file"
+    bad = (rng.random() < 0.3) if focus is None else (focus == "reject")
+    if focus == "reject" and mode == "file":
+        mode = "constant"
+    kv["mode"] = mode
+    setupfail = rng.choice([1, 2]) if rng.random() < 0.06 else 0
+    if setupfail:
+        kv["setupfail"] = setupfail
+    elif rng.random() < 0.08 or (focus == "verdict" and rng.random() < 0.2):
+        kv["tdfail"] = rng.choice([1, 2, 3])
+    # ---- common flags
+    if mode != "file":
+        if rng.random() < 0.9:
+            d = rng.choice(CLI_DURS)
+            kv["dur"] = hx(d)
+        if rng.random() < 0.75:
+            kv["conc"] = rng.choice([1, 2, 3, 5, 8])
+        if rng.random() < 0.35:
+            kv["maxit"] = rng.choice([1, 3, 7, 20])
+        if rng.random() < 0.4:
+            kv["maxfail"] = rng.choice([0, 1, 2, 5])
+        if rng.random() < 0.4:
+            kv["maxfailrate"] = rng.choice([0, 10, 34, 50, 100])
+        if rng.random() < 0.4:
+            kv["igndrop"] = 1
+        if rng.random() < 0.6:
+            kv["failevery"] = rng.choice([2, 3, 5])
+    valid = not bad
+    if mode == "constant":
+        if rng.random() < 0.9 or not valid:
+            kv["rate"] = hx(cli_rate(rng, valid or rng.random() < 0.5))
+        if rng.random() < 0.8:
+            kv["dist"] = hx(dist(rng, valid or rng.random() < 0.6))
+        if rng.random() < 0.3:
+            kv["bodyms"] = rng.choice([5, 30])
+        if valid and kv.get("dist") == hx("none") and "rate" in kv:
+            kv["meaning"] = 1
+        if valid and "maxit" not in kv and not setupfail:
+            kv["timing"] = 1
+    elif mode == "staged":
+        if rng.random() < 0.85:
+            kv["stages"] = hx(rng.choice(["0s:5,200ms:5", "0s:2, 100ms:8, 100ms:0", "100ms:10", "0s:1,1s:1"]) if valid or rng.random() < 0.5
+                              else stages_string(rng, False))
+        if rng.random() < 0.8:
+            kv["freq"] = hx(rng.choice(["50ms", "100ms", "1s", "40ms"]) if valid or rng.random() < 0.5
+                            else rng.choice(["0s", "-1s", "x", "0"]))
+        if rng.random() < 0.7:
+            kv["dist"] = hx(dist(rng, valid or rng.random() < 0.6))
+    elif mode == "ramp":
+        u = rng.choice(["s", "100ms", "50ms"])
+        a, b = rng.randint(0, 6), rng.randint(7, 20)
+        if rng.random() < 0.5:
+            a, b = b, a
+        if not valid and rng.random() < 0.5:
+            k = rng.random()
+            if k < 0.3:
+                b = a                                    # equal rates
+            elif k < 0.6:
+                kv["erate"] = hx("%d/%s" % (b, "2s"))    # different units
+            else:
+                kv["srate"] = hx(rate_string(rng, False))
+        kv.setdefault("srate", hx("%d/%s" % (a, u)))
+        kv.setdefault("erate", hx("%d/%s" % (b, u)))
+        if rng.random() < 0.8:
+            kv["rampdur"] = hx(rng.choice(["0", "0s", "200ms", "1s", "150ms", "20ms"]))
+        if rng.random() < 0.7:
+            kv["dist"] = hx(dist(rng, valid or rng.random() < 0.6))
+    elif mode == "gaussian":
+        kv["freq"] = hx(rng.choice(["100ms", "50ms"]) if valid else rng.choice(["0s", "100ms"]))
+        if rng.random() < 0.6:
+            kv["weights"] = hx(weights(rng))
+        if rng.random() < 0.5:
+            kv["stddev"] = hx(rng.choice(["1h", "30m"]) if valid else rng.choice(["0s", "-1s", "1h"]))
+        if rng.random() < 0.7:
+            kv["dist"] = hx(dist(rng, valid or rng.random() < 0.6))
+    elif mode == "users":
+        kv["bodyms"] = rng.choice([0, 20, 40]) if "maxit" in kv else rng.choice([20, 40])
+        kv.setdefault("conc", rng.choice([1, 2, 4, 6]))
+        if kv["bodyms"] > 0 and "maxit" not in kv and not setupfail and not bad:
+            kv["expectfull"] = 1
+        if kv["bodyms"] == 0 and "maxit" in kv and not setupfail and not bad:
+            kv["expectlimit"] = 1
+        if "maxit" not in kv and not setupfail:
+            kv["timing"] = 1
+    else:  # file
+        kv["fdur"] = rng.choice([250, 400, 600])
+        kv["bodyms"] = rng.choice([1, 5, 20])
+        kv["conc"] = rng.choice([1, 2, 4])
+        if rng.random() < 0.5:
+            kv["maxit"] = rng.choice([2, 5, 12])
+        if rng.random() < 0.5:
+            kv["maxfail"] = rng.choice([0, 1, 3])
+        if rng.random() < 0.5:
+            kv["maxfailrate"] = rng.choice([0, 20, 50])
+        if rng.random() < 0.5:
+            kv["igndrop"] = 1
+        if rng.random() < 0.7:
+            kv["failevery"] = rng.choice([2, 3, 4])
+        sts = []
+        for _ in range(rng.randint(1, 3)):
+            if rng.random() < 0.5:
+                sts.append("c:%d:%s" % (rng.choice([100, 150, 200]), rng.choice(["5/50ms", "3/100ms", "10/100ms"])))
+            else:
+                sts.append("u:%d:%d" % (rng.choice([100, 150, 200]), rng.choice([1, 2, 3])))
+        kv["fstages"] = ";".join(sts)
+        if all(s.startswith("u") for s in sts) and "maxit" in kv and not setupfail and kv["bodyms"] == 1:
+            kv["expectlimit"] = 1
+        return "cli " + " ".join("%s=%s" % (k, v) for k, v in kv.items())
+    # ---- ways the line itself is refused
+    if bad:
+        k = rng.random()
+        if k < 0.2:
+            kv["conc"] = rng.choice([0, -1, -100])
+        elif k < 0.3:
+            kv["scenario"] = 0
+        elif k < 0.45:
+            kv["dur"] = hx(rng.choice(["abc", "", "1", "1x"]))
+        elif k < 0.7:
+            kv["raw"] = hx(rng.choice(["--nope", "extra-positional", "--concurrency=abc", "--max-iterations=-1",
+                                       "--max-failures-rate=x", "--jitter=much", "-z"]))
+        for f in ("meaning", "timing", "expectfull", "expectlimit"):
+            kv.pop(f, None)
+    return "cli " + " ".join("%s=%s" % (k, v) for k, v in kv.items())
+
+
+def cli_compare(rec):
+    """cli cases: the correspondence is on accept/reject (the first token of both sides)."""
+    i, m = rec["impl"].split(), rec["model"].split()
+    if not i or not m or i[0] != m[0]:
+        return "model=%s impl=%s" % (rec["model"], rec["impl"][:60])
+    return None
+
+
+def cli_verdict_case(rng):
+    """A command line (or config file) whose run has exactly N iterations of which f fail, with each tolerance
+    option placed on, just below and just above the boundary — so that every option decides the exit status."""
+    n = rng.choice([4, 6, 9, 10, 12, 20])
+    k = rng.choice([2, 3, 4, 5])
+    f = n // k
+    kv = {"mode": rng.choice(["users", "users", "file"]), "maxit": n, "failevery": k, "expectlimit": 1}
+    which = rng.choice(["maxfail", "rate", "both", "none"])
+    if which in ("maxfail", "both"):
+        kv["maxfail"] = max(0, f + rng.choice([-1, 0, 0, 1]))
+    if which in ("rate", "both"):
+        kv["maxfailrate"] = min(100, max(0, 100 * f // n + rng.choice([-1, 0, 0, 1])))
+    if rng.random() < 0.5:
+        kv["igndrop"] = 1
+    if rng.random() < 0.1:
+        kv["tdfail"] = rng.choice([1, 2, 3])
+    if kv["mode"] == "users":
+        kv["conc"] = rng.choice([1, 2, 3])
+        kv["bodyms"] = 0
+        kv["dur"] = hx(rng.choice(["400ms", "500ms"]))
+    else:
+        kv["conc"] = rng.choice([1, 2])
+        kv["bodyms"] = 1
+        kv["fdur"] = 800
+        kv["fstages"] = "u:600:%d" % rng.choice([1, 2])
+    return "cli " + " ".join("%s=%s" % (a, b) for a, b in kv.items())
+
+
+def cli_corpus():
+    c = lambda **kv: "cli " + " ".join("%s=%s" % (k.rstrip("_"), v) for k, v in kv.items())
+    d200, none = hx("200ms"), hx("none")
+    return [
+        c(mode="constant"),                                                    # the registered defaults alone: 1/s, regular, 100 workers, 1 s
+        c(mode="users", dur=d200, bodyms=20),                                  # default concurrency in users mode
+        c(mode="constant", dur=d200, conc=0, rate=hx("5/100ms")),              # no worker: refused
+        c(mode="users", dur=d200, conc=0),
+        c(mode="users", dur=d200, conc=-1),
+        c(mode="staged", dur=d200, conc=0),
+        c(mode="ramp", dur=d200, conc=0, srate=hx("1/100ms"), erate=hx("5/100ms"), rampdur=d200),
+        c(mode="constant", dur=d200, conc=1, scenario=0),                      # unknown scenario
+        c(mode="ramp", dur=d200, conc=2, srate=hx("1/100ms"), erate=hx("5/100ms"), rampdur=hx("0"), dist=none),    # --ramp-duration 0: falls back to --max-duration
+        c(mode="ramp", dur=d200, conc=2, srate=hx("1/100ms"), erate=hx("5/100ms"), rampdur=hx("0s")),
+        c(mode="ramp", dur=hx("50ms"), conc=2, srate=hx("1/100ms"), erate=hx("5/100ms"), rampdur=hx("0")),          # … which is shorter than the unit: refused
+        c(mode="ramp", dur=d200, conc=2, srate=hx("1/100ms"), erate=hx("5/100ms"), rampdur=hx("99ms")),
+        c(mode="ramp", dur=d200, conc=2, srate=hx("1/s"), erate=hx("5/s")),                                         # default ramp duration 1 s = the unit
+        c(mode="staged", dur=d200, conc=2),                                     # default stages and frequency
+        c(mode="staged", dur=d200, conc=2, freq=hx("0s")),
+        c(mode="staged", dur=d200, conc=2, freq=hx("-100ms")),
+        c(mode="gaussian", dur=d200, conc=2, freq=hx("100ms")),
+        c(mode="gaussian", dur=d200, conc=2, freq=hx("100ms"), stddev=hx("0s")),
+        c(mode="constant", dur=d200, conc=3, rate=hx("6/100ms"), dist=none, meaning=1, timing=1),
+        c(mode="constant", dur=d200, conc=3, rate=hx("4"), dist=none, meaning=1, timing=1),                         # bare N: per second
+        c(mode="constant", dur=hx("350ms"), conc=3, rate=hx("2/150ms"), dist=none, meaning=1, timing=1),
+        c(mode="constant", dur=d200, conc=1, rate=hx("10/50ms"), dist=none, bodyms=30),                             # drops without --ignore-dropped
+        c(mode="constant", dur=d200, conc=1, rate=hx("10/50ms"), dist=none, bodyms=30, igndrop=1),
+        c(mode="users", dur=hx("400ms"), conc=2, maxit=10, failevery=5, maxfail=2, bodyms=0, expectlimit=1),        # 2 failures tolerated
+        c(mode="users", dur=hx("400ms"), conc=2, maxit=10, failevery=5, maxfail=1, bodyms=0, expectlimit=1),
+        c(mode="users", dur=hx("400ms"), conc=2, maxit=10, failevery=5, maxfailrate=20, bodyms=0, expectlimit=1),   # exactly 20 %
+        c(mode="users", dur=hx("400ms"), conc=2, maxit=10, failevery=5, maxfailrate=19, bodyms=0, expectlimit=1),
+        c(mode="file", fdur=800, conc=2, maxit=10, failevery=5, maxfail=2, bodyms=1, fstages="u:600:2", expectlimit=1),
+        c(mode="file", fdur=800, conc=2, maxit=10, failevery=5, maxfailrate=20, bodyms=1, fstages="u:600:2", expectlimit=1),
+        c(mode="file", fdur=800, conc=2, maxit=10, failevery=5, maxfail=1, bodyms=1, fstages="u:600:2", expectlimit=1),
+        c(mode="file", fdur=300, conc=1, bodyms=30, fstages="c:200:10/50ms"),                                        # drops, ignore-dropped off
+        c(mode="file", fdur=300, conc=1, bodyms=30, igndrop=1, fstages="c:200:10/50ms"),
+        c(mode="users", dur=d200, conc=2, bodyms=10, tdfail=1),                # failing teardown fails the run
+        c(mode="users", dur=d200, conc=2, bodyms=10, tdfail=2),
+        c(mode="users", dur=d200, conc=2, bodyms=10, setupfail=1),
+        c(mode="users", dur=d200, conc=2, bodyms=10, setupfail=2),
+        c(mode="constant", dur=d200, conc=2, raw=hx("--nope")),
+        c(mode="constant", dur=d200, conc=2, raw=hx("extra-positional")),
+    ]
